@@ -24,6 +24,22 @@ theorem byteLen_bounds (n : Nat) :
     1 ≤ byteLen n ∧ n < 256 ^ byteLen n ∧ (256 ≤ n → 256 ^ (byteLen n - 1) ≤ n) :=
   ⟨byteLen_pos n, lt_pow_byteLen n, pow_byteLen_le n⟩
 
+/-- **C10, /W at the boundaries**: at every power of 256 the width steps exactly there — `256^k − 1` still
+    takes `k` bytes, `256^k` and `256^k + 1` take `k + 1` (so an offset of exactly 256, 65536, 16777216, …
+    gets the extra byte). -/
+theorem byteLen_at_powers (k : Nat) (hk : 1 ≤ k) :
+    byteLen (256 ^ k - 1) = k ∧ byteLen (256 ^ k) = k + 1 ∧ byteLen (256 ^ k + 1) = k + 1 := by
+  have hpos : 1 ≤ 256 ^ (k - 1) := Nat.pow_pos (by decide)
+  have hstep : 256 ^ k = 256 ^ (k - 1) * 256 := by rw [← Nat.pow_succ]; congr 1; omega
+  have hnext : 256 ^ (k + 1) = 256 ^ k * 256 := Nat.pow_succ ..
+  refine ⟨?_, ?_, ?_⟩
+  · have := byteLen_unique (256 ^ k - 1) (k - 1) (by omega) (by
+      have : k - 1 + 1 = k := by omega
+      rw [this]; omega)
+    omega
+  · exact byteLen_unique (256 ^ k) k (Nat.le_refl _) (by omega)
+  · exact byteLen_unique (256 ^ k + 1) k (by omega) (by omega)
+
 /-- **C10, /W, rows**: in every successful save of a document reached from a base document — so in every
     build — each field of each row fits its column and the bytes written for the row
     (`type, field₁ big-endian, field₂ big-endian`) decode to the row. -/
